@@ -84,7 +84,8 @@ STATEFUL = {
              "|{{ 'today' | date: '%H:%M' }}|{{ 'now' | datetime }}|{{ 'now' | datetime: format: 'short' }}",
              lambda now, d: "|".join([_fmt_dt(now, "%Y-%m-%d %H:%M:%S"), _fmt_dt(now, "%Y-%m-%d"), str(int(now)),
                                    _fmt_dt(now, "%H:%M"), _babel(now, None, d), _babel(now, "short", d)])),
-    "gvprobe": ("{{ gv }}/{{ shared.n }}/{{ shared.list | join: ',' }}", lambda now, d: "//"),
+    "gvprobe": ("{{ gv }}/{{ shared.n }}/{{ shared.list | join: ',' }}/{{ extra }}/{{ 'x' | upcase }}{% for i in (1..4) %}{{ i }}{% endfor %}",
+                lambda now, d: "////X1234"),
     "nested": ("{% assign k = 'a' %}{{ h[k] }}{{ h['b'] }}{% for i in (1..2) %}{{ nested[i][0] }}{% endfor %}", lambda now, d: "1two3"),
     "condmacro": ("{% if flag %}{% macro m a %}M{{ a }}{% endmacro %}{% endif %}{% call m 1 %}|"
                   "{% if flag %}{% assign v = 'set' %}{% endif %}{{ v }}|{% unless flag %}{% increment z %}{% endunless %}{{ z }}",
@@ -699,8 +700,11 @@ def do_step(w: World, step: dict) -> None:
     elif k == "configure":
         ei = step["env"]
         if w.plan["envs"][ei].get("default_global"):
-            return
-        if w.plan["envs"][ei]["loader"].startswith("c") and step["what"] in ("del_filter", "trim", "replace_tag"):
+            # the process-wide default environment may be configured too (render-time settings only)
+            if step["what"] not in ("globals_set", "add_filter", "replace_filter", "loop_limit", "undefined",
+                                    "suppress_blank", "output_limit", "replace_json", "translation_filters"):
+                return
+        elif w.plan["envs"][ei]["loader"].startswith("c") and step["what"] in ("del_filter", "trim", "replace_tag"):
             # parse-time configuration: a caching loader legitimately keeps templates parsed
             # under the earlier configuration, a fresh one re-parses them (not a C09 matter)
             w.count("config_skipped_parse_time_on_caching_loader")
@@ -741,8 +745,11 @@ def do_step(w: World, step: dict) -> None:
         except BaseException as exc:  # noqa: BLE001
             got = canon_exc(exc)
         d2, _ = w.data(step["data"], None, "d")
+        dei = next((i for i, e in enumerate(w.plan["envs"]) if e.get("default_global")), None)
+        configured = dei is not None and any(ev[0] == "config" for ev in w.env_events[dei])
         try:
-            exp = ("ok", common.norm(liquid2.Environment().from_string(step["src"]).render(**d2)))
+            ref_env = w.fresh_for(dei).envs[dei] if dei is not None else liquid2.Environment()
+            exp = ("ok", common.norm(ref_env.from_string(step["src"]).render(**d2)))
         except Inconclusive:
             raise
         except BaseException as exc:  # noqa: BLE001
@@ -750,7 +757,7 @@ def do_step(w: World, step: dict) -> None:
         if got != exp:
             raise Violation("differs_from_fresh", step=step["id"], op="oneshot", got=_short(got), expected=_short(exp))
         prog = step.get("prog")
-        if prog in STATEFUL and prog not in NEEDS_PARTIALS and got[0] == "ok":
+        if prog in STATEFUL and prog not in NEEDS_PARTIALS and got[0] == "ok" and not configured:
             want = STATEFUL[prog][1](w.clock.now, w.raw_data(step["data"]))
             if got[1] != want:
                 raise Violation("closed_form", step=step["id"], prog=prog, got=got[1], expected=want)
@@ -1035,8 +1042,19 @@ def gen_plan(seed: int, tier: str) -> dict:
                                                               86400 - (1_700_000_000 % 86400) + 1])})
         elif r < 0.78:
             ei = rng.randrange(n_env)
-            steps.append({"op": "configure", "id": nid(), "env": ei, "what": rng.choice(CONFIG_KINDS),
-                          "v": rng.choice(["X", "Y"])})
+            what = rng.choice(CONFIG_KINDS)
+            dgi = [i for i, e in enumerate(envs) if e.get("default_global")]
+            if dgi and rng.random() < 0.5:
+                ei = dgi[0]
+                what = rng.choice(["globals_set", "add_filter", "replace_filter", "loop_limit", "undefined",
+                                   "output_limit", "replace_json"])
+                # the module-level API before and after: same source seen twice
+                steps.append({"op": "oneshot", "id": nid(), "src": STATEFUL["gvprobe"][0], "prog": "gvprobe",
+                              "mode": rng.choice("sa"), "data": data_spec()})
+            steps.append({"op": "configure", "id": nid(), "env": ei, "what": what, "v": rng.choice(["X", "Y"])})
+            if dgi and ei == dgi[0]:
+                steps.append({"op": "oneshot", "id": nid(), "src": STATEFUL["gvprobe"][0], "prog": "gvprobe",
+                              "mode": rng.choice("sa"), "data": data_spec()})
         elif r < 0.86:
             hid, ei = rng.choice(handles)
             same_env = [h for h, e in handles if e == ei]
